@@ -380,6 +380,32 @@ def run_shard(job: dict[str, Any]) -> dict[str, Any]:
                         )
             if chk.rng.random() < 0.0005:
                 chk.sample({"server_set": sname, "x_vgi_accept_encoding": hv, "accept_encoding": hs, "expected": [exp.coding, sorted(exp.headers), exp.why]})
+        # --- histories: negotiation is per request - an offer-less request right after a request that negotiated a
+        # coding (same worker thread) gets an untransformed, unannounced body ---------------------------------
+        for prev_hdr, prev_val in (("Accept-Encoding", "zstd"), ("Accept-Encoding", "gzip"), ("X-VGI-Accept-Encoding", "zstd"), ("X-VGI-Accept-Encoding", "gzip, zstd")):
+            for prev_kind, (ppath, pbody) in reqs.items():
+                for kind, (path, body) in reqs.items():
+                    if kind not in ref:
+                        continue
+                    rp = httpdrv.call(app, "POST", ppath, {**base, prev_hdr: prev_val}, pbody)
+                    r = httpdrv.call(app, "POST", path, base, body)
+                    chk.case(f"after_coded_request:{prev_kind}->{kind}:{sname}:{prev_hdr}={prev_val}")
+                    chk.hit("offerless_after_coded_judged")
+                    wit = {"server_set": sname, "previous": {"kind": prev_kind, prev_hdr: prev_val, "announced": rp.header("content-encoding") or rp.header("x-vgi-content-encoding")}, "kind": kind}
+                    if r.header("content-encoding") or r.header("x-vgi-content-encoding"):
+                        chk.violation(f"coded_without_offer:{kind}:after_coded_request", "a request offering no coding got an encoded response", wit)
+                        continue
+                    try:
+                        norm = strip(normalise(r.body), ref[kind][2])
+                    except Exception as exc:  # noqa: BLE001
+                        chk.violation(
+                            f"body_not_decodable_as_announced:{'precompressed' if kind == 'producer_cont' else 'middleware'}:None:after_coded_request",
+                            f"an offer-less request after a coded one got a body that is not a plain Arrow stream: {type(exc).__name__}: {str(exc)[:100]}",
+                            wit,
+                        )
+                        continue
+                    if norm != ref[kind][1]:
+                        chk.violation(f"decoded_body_differs:after_coded_request:{kind}", "offer-less body differs from the reference after a coded request", wit)
     return chk.to_result()
 
 
